@@ -62,7 +62,7 @@ REQUIRED_MONITORS = ["component-interpolation-equals-whole", "split-indices-part
                      "inverse-inverts-local", "dense-equals-sparse", "dot-equals-matvec", "compositebasis-equals-composite-element",
                      "split-on-restricted-basis", "asm-product-equals-weighted-sum",
                      "linear-elemental-data", "functional-elemental-data", "trilinear-elemental-data"]
-REQUIRED_REACH = ["rectangular-local", "vector-element", "composite-3-components", "3d-composite", "facet-tolocal", "asm-list-with-dof-array-keyword",
+REQUIRED_REACH = ["rectangular-local", "coo-dot-rectangular", "vector-element", "composite-3-components", "3d-composite", "facet-tolocal", "asm-list-with-dof-array-keyword",
                   "vector-components-differ-from-dimension", "coo-dot-non-float64-vector", "coo-dot-complex-data",
                   "asm-product-of-two-lists", "asm-raw-callable", "asm-list-functional",
                   "vector-element-blocks", "vector-element-blocks-components-differ-from-dimension", "nested-split",
@@ -998,6 +998,19 @@ def local_matrices(ctx, k, kind):
               mech="fromlocal", **tag)
     ctx.close("dense-equals-sparse", coo.toarray(), coo.tocsr().toarray(), rtol=0, scale=1.0, atol=0.0, mech="toarray", **tag)
     ctx.close("dense-equals-sparse", coo.tocsr().toarray(), A.toarray(), rtol=1e-13, scale=scale, mech="tocsr-vs-assemble", **tag)
+    if rect or un != vn:
+        # different trial and test bases: the product has one entry per test function
+        x = rng.standard_normal(A.shape[1])
+        try:
+            got = np.asarray(coo.dot(x))
+            ok_shape = got.shape == (A.shape[0],)
+            ctx.check("dot-equals-matvec", ok_shape, mech="coo-dot-rectangular:length", got=got.shape, want=(A.shape[0],), **tag)
+            if ok_shape:
+                ctx.close("dot-equals-matvec", got, A @ x, rtol=1e-11,
+                          scale=float(np.abs(A).sum(axis=1).max()) * float(np.abs(x).max()) + 1e-300, mech="coo-dot-rectangular", **tag)
+        except IndexError as e:
+            ctx.check("dot-equals-matvec", False, mech="coo-dot-rectangular:raises", error=repr(e)[:160], **tag)
+        ctx.reached("coo-dot-rectangular")
     if not rect and un == vn:
         x = rng.standard_normal(ub.N)
         ctx.close("dot-equals-matvec", coo.dot(x), A @ x, rtol=1e-11, scale=float(np.abs(A).sum(axis=1).max()) * float(np.abs(x).max()) + 1e-300,
